@@ -73,6 +73,8 @@
 
 mod lock;
 mod read_guard;
+#[cfg(eyeball_verif)]
+pub mod verif;
 mod shared;
 mod state;
 pub mod subscriber;
